@@ -242,9 +242,11 @@ PROPS.update({
     "C04": gw("C04",
               "Lean theorems about the topic-ID allocator of the model for ALL states: c04_allocs (any number of requests hands out strictly increasing, hence pairwise "
               "distinct, IDs inside the range), c04_not_predefined, c04_after_wrap + c04_exhausted_sticky (after a wrap everything is refused, for good), "
-              "c04_refusal_codes; that stored bindings are never replaced is checked by the monitor Spec.c04 on registry samples after every event of every "
-              "implementation trace; tie: gateway suite (the ids profile runs sessions with tiny ID ranges to exhaustion)",
-              "theorems c04_allocs, c04_increasing, c04_not_predefined, c04_after_wrap, c04_exhausted_sticky, c04_refusal_codes; monitor Spec.c04",
+              "c04_refusal_codes; ALL RUNS: c04_never_reassigned (after ANY event sequence a TopicID bound to a name in the registry denotes that name at every later point of "
+              "the session; invariant K over registry, reservations, allocator and pending REGISTER exchanges carried through every model function); the monitor Spec.c04 "
+              "checks the same on registry samples after every event of every implementation trace; tie: gateway suite (the ids profile runs sessions with tiny ID ranges "
+              "to exhaustion)",
+              "theorems c04_allocs, c04_increasing, c04_not_predefined, c04_after_wrap, c04_exhausted_sticky, c04_refusal_codes, c04_never_reassigned (all runs); monitor Spec.c04",
               assumptions=["the gateway constructs the sequence with MinTopicID <= MaxTopicID (regenerated constants 1 and 0xFFFE); the theorem is for every such range"]),
     "C07": gw("C07",
               "Lean theorems c07_client_cannot_activate (no client datagram activates a disconnected session), c07_activation (only the broker's CONNACK 0 for the "
